@@ -555,6 +555,9 @@ func BuildInst(b *ir.Block, c *Case, vals []value.Value, tc *TypeCtx) value.User
 			i.FuncAttrs = []ir.FuncAttribute{enum.FuncAttrNoUnwind}
 		}
 		i.OperandBundles = a.bundles()
+		if _, ok := c.Attrs["ptras"]; ok {
+			i.AddrSpace = types.AddrSpace(atoiAttr(c, "ptras"))
+		}
 		name(i)
 		return i
 	case "va_arg":
@@ -610,6 +613,9 @@ func BuildInst(b *ir.Block, c *Case, vals []value.Value, tc *TypeCtx) value.User
 			t.FuncAttrs = []ir.FuncAttribute{enum.FuncAttrNoUnwind}
 		}
 		t.OperandBundles = a.bundles()
+		if _, ok := c.Attrs["ptras"]; ok {
+			t.AddrSpace = types.AddrSpace(atoiAttr(c, "ptras"))
+		}
 		name(t)
 		return t
 	case "callbr":
@@ -957,6 +963,9 @@ func BuildProgTracked(p *Prog, cur *string) *Built {
 			// a global without initialiser is a declaration: LLVM requires external linkage (DESIGN.md 3, rule 3)
 			g := m.NewGlobal(d.Name, bt.tc.Type(&d.Ty))
 			g.Linkage = enum.LinkageExternal
+			if d.AS != 0 {
+				g.AddrSpace = types.AddrSpace(d.AS) // no constructor parameter: set through the exported field
+			}
 			bt.register(d.Name, g)
 		case "NewGlobalDef":
 			bt.register(d.Name, m.NewGlobalDef(d.Name, BuildConst(d.Init, bt.tc, bt)))
